@@ -432,7 +432,12 @@ func GetOrCreateDomain(db *sql.DB, domain string) (int64, error) {
 	if err == nil {
 		return id, nil
 	}
-	return CreateDomain(db, domain)
+	id, err = CreateDomain(db, domain)
+	if err != nil && strings.Contains(err.Error(), "already exists") {
+		// another session created the domain between the lookup and the insert
+		return GetDomainByName(db, domain)
+	}
+	return id, err
 }
 
 // User management functions
@@ -531,15 +536,14 @@ func GetMailboxInfo(db *sql.DB, mailboxID int64) (uidValidity, uidNext int64, er
 }
 
 func IncrementUIDNext(db *sql.DB, mailboxID int64) (int64, error) {
-	var currentUID int64
-	err := db.QueryRow("SELECT uid_next FROM mailboxes WHERE id = ?", mailboxID).Scan(&currentUID)
+	// One statement: reading uid_next and advancing it separately lets two sessions read the same value, and the
+	// second one's message then fails on UNIQUE(mailbox_id, uid)
+	var newUID int64
+	err := db.QueryRow("UPDATE mailboxes SET uid_next = uid_next + 1 WHERE id = ? RETURNING uid_next - 1", mailboxID).Scan(&newUID)
 	if err != nil {
 		return 0, err
 	}
-
-	newUID := currentUID
-	_, err = db.Exec("UPDATE mailboxes SET uid_next = uid_next + 1 WHERE id = ?", mailboxID)
-	return newUID, err
+	return newUID, nil
 }
 
 func MailboxExists(db *sql.DB, userID int64, mailboxName string) (bool, error) {
